@@ -6,6 +6,7 @@ import OmplModel.Proofs.DiscReal
 import OmplModel.Proofs.KPIECE1
 import OmplModel.Proofs.LBKPIECE1
 import OmplModel.Proofs.LBKPIECE1Path
+import OmplModel.Proofs.LBKPIECE1Forest
 import OmplModel.Proofs.GridN
 /-!
 # C13 — grid discretizations track cells, neighbours, borders and components exactly
@@ -454,11 +455,39 @@ theorem lbkpiece_isPathValid_complete (cfg : LBKPIECE1.Cfg S α) (starts : Array
     ∀ i ∈ ids, ∀ m, (validateFrom cfg t ids st).2.ar[i]? = some m → m.parent ≠ none → m.valid = true :=
   ⟨(validateFrom_inv t ids st h).1, ((validateFrom_inv t ids st h).2 ht).1, ((validateFrom_inv t ids st h).2 ht).2.2⟩
 
-/-- `removeMotion` (with its recursion over the children) never changes a state, a parent index, a tree membership or
-a `valid` flag: it only clears `alive` flags, edits `children` lists and appends free events. -/
-theorem lbkpiece_remove_subtree_partial (cfg : LBKPIECE1.Cfg S α) (t : Bool) (fuel i : Nat) (detach : Bool)
-    (st : LBKPIECE1.St S α) : LBKPIECE1.FrameV st.ar (removeSubtree cfg t fuel i detach st).ar :=
-  removeSubtree_frame cfg t fuel i detach st
+/-- **every arena LBKPIECE1 reaches is a forest as its `children` lists see it** (all motions ever created, freed ones
+as ghosts): a listed child points back to the lister (`parent`) and is younger; no list has a repetition; a live motion
+with a parent is listed by that parent, which is live; the children of a live motion are live.  For every configuration
+(every oracle), start set and script. -/
+theorem lbkpiece_forest (cfg : LBKPIECE1.Cfg S α) (hcoord : ∀ s, (cfg.coord s).length = cfg.P.dim) (starts : Array S)
+    (script : List (LBKPIECE1.Draw S α)) : LBKPIECE1.Forest (LBKPIECE1.solve cfg starts script).final.ar :=
+  solve_forest cfg hcoord starts script
+
+/-- **`removeMotion` removes exactly the motion and its descendants, each once.**  In a forest arena, for a live motion
+`i`: afterwards the arena is a forest again; the free list grew by a list `L` without repetition whose members are exactly
+the motions reachable from `i` through `children` lists (`i` included), every one of them live before the call (nothing
+is freed twice); a motion is live afterwards exactly when it was live before and is not such a descendant; and no state,
+parent index, tree membership or `valid` flag of any motion changed (`FrameV`). -/
+theorem lbkpiece_remove_subtree (cfg : LBKPIECE1.Cfg S α) (t : Bool) (st : LBKPIECE1.St S α)
+    (hF : LBKPIECE1.Forest st.ar) {i : Nat} {m : LBKPIECE1.Motion S} (hm : st.ar[i]? = some m) (ha : m.alive = true) :
+    (LBKPIECE1.Forest (removeSubtree cfg t (st.ar.size + 1) i true st).ar ∧
+      ∃ L, (removeSubtree cfg t (st.ar.size + 1) i true st).freed = st.freed ++ L ∧ L.Nodup ∧
+        (∀ k, k ∈ L ↔ LBKPIECE1.Desc st.ar i k) ∧
+        (∀ k, k ∈ L → ∃ km, st.ar[k]? = some km ∧ km.alive = true) ∧
+        ∀ (k : Nat) (km' : LBKPIECE1.Motion S), (removeSubtree cfg t (st.ar.size + 1) i true st).ar[k]? = some km' →
+          (km'.alive = true ↔ (∃ km, st.ar[k]? = some km ∧ km.alive = true) ∧ ¬ LBKPIECE1.Desc st.ar i k)) ∧
+    LBKPIECE1.FrameV st.ar (removeSubtree cfg t (st.ar.size + 1) i true st).ar :=
+  ⟨removeSubtree_exact cfg t st hF hm ha, removeSubtree_frame cfg t _ i true st⟩
+
+/-- the only call site of `removeMotion` (inside `isPathValid`) meets the precondition above -- the chain it walks
+consists of live motions and the walk only sets `valid` flags before the removal --, keeps the forest, and a walk that
+answers `true` removed and added nothing. -/
+theorem lbkpiece_remove_call_site (cfg : LBKPIECE1.Cfg S α) (t : Bool) (i : Nat) (st : LBKPIECE1.St S α)
+    (hF : LBKPIECE1.Forest st.ar) (hi : LBKPIECE1.AliveAt st.ar i) :
+    LBKPIECE1.Forest (isPathValid cfg t i st).2.ar ∧
+    ((isPathValid cfg t i st).1 = true →
+      ∀ k : Nat, ((isPathValid cfg t i st).2.ar[k]?).map LBKPIECE1.proj = (st.ar[k]?).map LBKPIECE1.proj) :=
+  isPathValid_forest cfg t i st hF hi
 
 /-- **LBKPIECE1 reports only real solutions**, for every configuration (every oracle), start set and script: the
 status is EXACT_SOLUTION exactly when `addSolutionPath` was called (INVALID_START / INVALID_GOAL / TIMEOUT add nothing),
@@ -507,6 +536,33 @@ theorem lbkpiece_disc_inv (cfg : LBKPIECE1.Cfg S α) (hcoord : ∀ s, (cfg.coord
   intro st
   have h := solve_linv cfg hcoord starts script
   exact ⟨h.2.dS, h.2.dG, h.2.coh, fun t i x => mem_liveAr cfg t st.ar i x, h.2.dS.size, h.2.dG.size⟩
+
+/-! non-vacuity of `lbkpiece_remove_subtree`: a root with a child is a forest with both motions live (so the hypotheses
+hold with a non-trivial subtree), and on a concrete arena `0 → {1 → {3}, 2}` the recursion from `1` visits `[3, 1]`. -/
+example (cfg : LBKPIECE1.Cfg S α) (s x : S) (st : LBKPIECE1.St S α) (h0 : st.ar = #[]) :
+    let st1 := addMotion cfg st { state := s, parent := none, root := s, valid := true, children := [], inStart := true }
+    let st2 := addMotion cfg st1 { state := x, parent := some 0, root := s, valid := false, children := [], inStart := true }
+    LBKPIECE1.Forest st2.ar ∧ LBKPIECE1.AliveAt st2.ar 0 ∧ LBKPIECE1.AliveAt st2.ar st1.ar.size := by
+  intro st1 st2
+  have hF0 : LBKPIECE1.Forest st.ar := by
+    rw [h0]; refine ⟨?_, ?_, ?_, ?_⟩ <;> intros <;> simp at *
+  have hF1 : LBKPIECE1.Forest st1.ar := addMotion_forest cfg hF0 _ rfl rfl (fun p hp => by cases hp)
+  have hsz : st.ar.size = 0 := by rw [h0]; rfl
+  have ha0 : LBKPIECE1.AliveAt st1.ar 0 := by
+    have := addMotion_new cfg st { state := s, parent := none, root := s, valid := true, children := [], inStart := true }
+      (by intro h; cases h)
+    rw [hsz] at this
+    exact ⟨_, this, rfl⟩
+  refine ⟨addMotion_forest cfg hF1 _ rfl rfl (fun p hp => by
+      simp only [Option.some.injEq] at hp; subst hp; exact ha0), addMotion_aliveAt cfg st1 _ ha0,
+    ⟨_, addMotion_new cfg st1 _ (parent_ne_size ha0), rfl⟩⟩
+
+def arenaEx : Array (LBKPIECE1.Motion Nat) :=
+  #[{ state := 0, parent := none, root := 0, valid := true, children := [1, 2], inStart := true },
+    { state := 1, parent := some 0, root := 0, valid := false, children := [3], inStart := true },
+    { state := 2, parent := some 0, root := 0, valid := false, children := [], inStart := true },
+    { state := 3, parent := some 1, root := 0, valid := false, children := [], inStart := true }]
+example : LBKPIECE1.subtree arenaEx 5 1 = [3, 1] ∧ LBKPIECE1.subtree arenaEx 5 0 = [3, 1, 2, 0] := by decide
 
 /-! non-vacuity -/
 example (cfg : LBKPIECE1.Cfg S α) (h : cfg.coord = fun _ => List.replicate cfg.P.dim 0) :
